@@ -341,6 +341,13 @@ func cases() []mcase {
 		{name: "maketoken-othergroup", mk: func(g, s, o string) *smsg {
 			return &smsg{Type: "groupaction", Kind: "maketoken", Value: tokenValue("aux", []string{}, 3600000)}
 		}},
+		{name: "maketoken-subgroup", mk: func(g, s, o string) *smsg {
+			// a token is made for the member's own group, not for a group below it
+			return &smsg{Type: "groupaction", Kind: "maketoken", Value: tokenValue(g+"/sub", []string{}, 3600000)}
+		}},
+		{name: "maketoken-prefix", mk: func(g, s, o string) *smsg {
+			return &smsg{Type: "groupaction", Kind: "maketoken", Value: tokenValue(g+"x", []string{}, 3600000)}
+		}},
 		{name: "maketoken-noexpiry", mk: func(g, s, o string) *smsg {
 			return &smsg{Type: "groupaction", Kind: "maketoken", Value: val{Kind: "t", T: tokSpec{Group: g, HasPerms: true}}}
 		}},
